@@ -615,6 +615,220 @@ def runOld : State → List Op → Except Fault State
     | .error e => .error e
     | .ok (_, s') => runOld s' ops
 
+/-! ## composition: the allocator layer over an ABSTRACT device memory state
+
+`memoryAllocatorImpl` talks to a device's memory through the interface `deviceMemoryState`
+(`devicememstateinterface.go`): `Device.allocatePage`, `Device.allocateMultiplePages`, `addSinglePAddr`. The model above
+fixes that interface to the default FIFO free list (`Pool`); here the same allocator code (`allocatePages`, `removePage`,
+`Free`, `allocateMultiplePagesWithGivenVAddrs` with the repaired release of the replaced page, `Remap`, `Distribute`) is
+written once over an interface `Iface σ`, for ONE process and plain (CPU/GPU) devices — no unified device, no page
+migration. `buddyIface` instantiates it with the buddy model (`MgpuModel/C10Buddy.lean`): the `c10 comp …` case lines
+(whole-driver histories on buddy devices, harness/c10_comp.go); `fifoIface` with the FIFO free list. -/
+namespace Comp
+
+/-- `deviceMemoryState` as the allocator uses it (through `Device`) -/
+structure Iface (σ : Type) where
+  /-- Device.allocatePage (mustHaveSpaceLeft + one page) -/
+  allocPage : σ → Except Fault (Nat × σ)
+  /-- Device.allocateMultiplePages -/
+  allocMulti : σ → Nat → Except Fault (List Nat × σ)
+  /-- addSinglePAddr -/
+  addSingle : σ → Nat → Except Fault σ
+
+structure GState (σ : Type) where
+  ps : Nat
+  devs : List Dev                -- static ranges, device ID = index
+  mem : List σ                   -- the memory state of each device
+  pid : Nat                      -- the one process
+  cursor : Nat                   -- its nextVAddr
+  mirror : List (Nat × Page)     -- vAddrToPageMapping
+  npages : List (Nat × Nat)      -- allocationNumPages
+  pt : List Page                 -- vm.PageTable
+  gpu : Nat                      -- the context's current device
+
+variable {σ : Type}
+
+/-- the loop of allocatePages -/
+def allocLoop (I : Iface σ) (d : Nat) : Nat → Nat → GState σ → Except Fault (GState σ)
+  | 0, _, s => .ok s
+  | k + 1, v, s =>
+    match s.mem[d]? with
+    | none => .error .nilderef
+    | some m =>
+      match I.allocPage m with
+      | .error e => .error e
+      | .ok (p, m') =>
+        match devOf s.devs p with
+        | none => .error .noDevice
+        | some dev =>
+          let pg : Page := { pid := s.pid, vaddr := v, paddr := p, dev := dev, unified := false, migrating := false }
+          match ptInsert s.pt pg with
+          | .error e => .error e
+          | .ok pt' =>
+            allocLoop I d k (v + s.ps) { s with mem := s.mem.set d m', pt := pt', mirror := (v, pg) :: s.mirror }
+
+/-- MemoryAllocator.Allocate -/
+def allocate (I : Iface σ) (s : GState σ) (bytes d : Nat) : Except Fault (Nat × GState σ) :=
+  if bytes = 0 then .error .zeroBytes else
+  let n := numPagesOf s.ps bytes
+  match allocLoop I d n s.cursor s with
+  | .error e => .error e
+  | .ok s' => .ok (s.cursor, { s' with cursor := s.cursor + s.ps * n, npages := (s.cursor, n) :: s'.npages })
+
+/-- removePage: `addSinglePAddr` first, then `pageTable.Remove` -/
+def removePage (I : Iface σ) (s : GState σ) (v : Nat) : Except Fault (GState σ) :=
+  match lookup s.mirror v with
+  | none => .error .mirrorMissing
+  | some pg =>
+    match devOf s.devs pg.paddr with
+    | none => .error .noDevice
+    | some d =>
+      match s.mem[d]? with
+      | none => .error .nilderef
+      | some m =>
+        match I.addSingle m pg.paddr with
+        | .error e => .error e
+        | .ok m' =>
+          match ptRemove s.pt pg.pid pg.vaddr with
+          | .error e => .error e
+          | .ok pt' => .ok { s with mem := s.mem.set d m', pt := pt' }
+
+def removePages (I : Iface σ) : List Nat → GState σ → Except Fault (GState σ)
+  | [], s => .ok s
+  | v :: vs, s =>
+    match removePage I s v with
+    | .error e => .error e
+    | .ok s' => removePages I vs s'
+
+def freeVAddrs (s : GState σ) (ptr : Nat) : List Nat :=
+  ptr :: (List.range ((lookup s.npages ptr).getD 0 - 1)).map fun i => ptr + (i + 1) * s.ps
+
+/-- MemoryAllocator.Free -/
+def free (I : Iface σ) (s : GState σ) (ptr : Nat) : Except Fault (GState σ) :=
+  removePages I (freeVAddrs s ptr) { s with npages := (ptr, 0) :: s.npages }
+
+/-- the repaired end of one iteration of allocateMultiplePagesWithGivenVAddrs: the page the allocator's record names
+goes back to the device that owns it (when the record belongs to the calling process) -/
+def releaseReplaced (I : Iface σ) (s : GState σ) (replaced : Option Page) : Except Fault (GState σ) :=
+  match replaced with
+  | some old =>
+    if old.pid = s.pid then
+      match devOf s.devs old.paddr with
+      | none => .error .noDevice
+      | some d =>
+        match s.mem[d]? with
+        | none => .error .nilderef
+        | some m =>
+          match I.addSingle m old.paddr with
+          | .error e => .error e
+          | .ok m' => .ok { s with mem := s.mem.set d m' }
+    else .ok s
+  | none => .ok s
+
+/-- the loop of allocateMultiplePagesWithGivenVAddrs -/
+def remapLoop (I : Iface σ) : List Nat → List Nat → GState σ → Except Fault (GState σ)
+  | v :: vs, p :: ps, s =>
+    match devOf s.devs p with
+    | none => .error .noDevice
+    | some dev =>
+      let pg : Page := { pid := s.pid, vaddr := v, paddr := p, dev := dev, unified := false, migrating := false }
+      match ptUpdate s.pt pg with
+      | .error e => .error e
+      | .ok pt' =>
+        match releaseReplaced I { s with pt := pt', mirror := (v, pg) :: s.mirror } (lookup s.mirror v) with
+        | .error e => .error e
+        | .ok s1 => remapLoop I vs ps s1
+  | _, _, s => .ok s
+
+/-- MemoryAllocator.Remap -/
+def remap (I : Iface σ) (s : GState σ) (addr bytes d : Nat) : Except Fault (GState σ) :=
+  let vs := remapVAddrs s.ps addr bytes
+  match s.mem[d]? with
+  | none => .error .nilderef
+  | some m =>
+    match I.allocMulti m vs.length with
+    | .error e => .error e
+    | .ok (ps, m') => remapLoop I vs ps { s with mem := s.mem.set d m' }
+
+def remapAll (I : Iface σ) (ids : List Nat) : List (Nat × Nat × Nat) → GState σ → Except Fault (GState σ)
+  | [], s => .ok s
+  | (a, b, i) :: rest, s =>
+    match remap I s a b (ids.getD i 0) with
+    | .error e => .error e
+    | .ok s' => remapAll I ids rest s'
+
+/-- Driver.Distribute -/
+def distribute (I : Iface σ) (s : GState σ) (addr bytes : Nat) (ids : List Nat) : Except Fault (GState σ) :=
+  if ids.length = 1 then .ok s
+  else if addr % s.ps ≠ 0 then .error .unaligned
+  else if ids.length = 0 then .error .divzero
+  else remapAll I ids (distPlan s.ps addr bytes ids.length) s
+
+/-- driver operations of the one context -/
+inductive DOp
+  | sel (gpu : Nat)
+  | alloc (bytes : Nat)
+  | free (ptr : Nat)
+  | remap (addr bytes dev : Nat)
+  | dist (addr bytes : Nat) (ids : List Nat)
+  | rmpage (v : Nat)
+deriving Repr
+
+def step (I : Iface σ) (s : GState σ) : DOp → Except Fault (GState σ)
+  | .sel g => if g ≥ s.devs.length then .error .selRange else .ok { s with gpu := g }
+  | .alloc bytes =>
+    match allocate I s bytes s.gpu with
+    | .error e => .error e
+    | .ok (_, s') => .ok s'
+  | .free ptr => free I s ptr
+  | .remap a b d => remap I s a b d
+  | .dist a b ids => distribute I s a b ids
+  | .rmpage v => removePage I s v
+
+def run (I : Iface σ) : GState σ → List DOp → Except Fault (GState σ)
+  | s, [] => .ok s
+  | s, op :: ops =>
+    match step I s op with
+    | .error e => .error e
+    | .ok s' => run I s' ops
+
+/-! ## instance 1: buddy devices -/
+
+def bfault : Buddy.Fault → Fault
+  | .oom => .oom | .bounds => .bounds | .noDevice => .noDevice
+
+def liftB {α : Type} : Except Buddy.Fault α → Except Fault α
+  | .ok a => .ok a
+  | .error e => .error (bfault e)
+
+/-- Device.allocatePage / allocateMultiplePages / addSinglePAddr on a `deviceBuddyMemoryState` (with the allocator's
+`deviceIDByPAddr` check of every page handed out, as in `Buddy.popOne` / `Buddy.amOp`) -/
+def buddyIface : Iface Buddy.State where
+  allocPage := fun m => liftB (Buddy.popOne m)
+  allocMulti := fun m n => liftB (Buddy.amOp m n)
+  addSingle := fun m p => liftB (Buddy.addSingle m p)
+
+/-- RegisterDevice of devices of `4096 * 2^F` bytes (one exponent per device), the first at `b` -/
+def bdevsFrom : Nat → List Nat → List Dev
+  | _, [] => []
+  | b, F :: Fs => { kind := .gpu, base := b, size := 4096 * 2 ^ F, actual := [] } :: bdevsFrom (b + 4096 * 2 ^ F) Fs
+
+/-- Build + RegisterGPU with the buddy allocator selected: device 0 (the CPU) starts at 4096 (`kind` is not read by
+this layer), every device owns a fresh buddy state; one process, its context on device 1 -/
+def binit (Fs : List Nat) : GState Buddy.State :=
+  { ps := 4096, devs := bdevsFrom 4096 Fs, mem := (bdevsFrom 4096 Fs).map fun d => Buddy.init d.base d.size,
+    pid := 1, cursor := 4096, mirror := [], npages := [], pt := [], gpu := 1 }
+
+/-! ## instance 2: the FIFO free list of `deviceMemoryStateImpl` -/
+
+def fifoIface : Iface (List Nat) where
+  allocPage := fun m => match m with | p :: fs => .ok (p, fs) | [] => .error .oom
+  allocMulti := fun m n =>
+    if m.isEmpty then .error .oom else if m.length < n then .error .bounds else .ok (m.take n, m.drop n)
+  addSingle := fun m p => .ok (m ++ [p])
+
+end Comp
+
 /-! ## line protocol -/
 
 def flg (b : Bool) (c : String) : String := if b then c else "-"
@@ -666,6 +880,52 @@ def parseOp (t : List String) : Option Op :=
   | ["apg", c, d, v, u] => do some (.apg (← c.toNat?) (← d.toNat?) (← hexNat? v) ((← u.toNat?) == 1))
   | ["rfb", c] => c.toNat?.map .rfb
   | _ => none
+
+/-! ## `c10 comp fs=<F>,<F>,… v=<0|1> ; op ; …`: whole-driver histories of one context on buddy devices of
+`4096 * 2^F` bytes (device 0 = CPU). Ops in the syntax of the other lines, context 0 only (`sel 0 g`, `alloc 0 b`,
+`free 0 p`, `remap 0 a b d`, `dist 0 a b ids`, `rmpage v`). Answer per op: the result, then the page table and the
+free blocks of every device's buddy state. -/
+namespace Comp
+
+def toDOp : Op → Option DOp
+  | .sel 0 g => some (.sel g)
+  | .alloc 0 b => some (.alloc b)
+  | .free 0 p => some (.free p)
+  | .remap 0 a b d => some (.remap a b d)
+  | .dist 0 a b ids => some (.dist a b ids)
+  | .rmpage v => some (.rmpage v)
+  | _ => none
+
+def resStr (s : GState Buddy.State) : DOp → String
+  | .alloc _ => "=" ++ toHex s.cursor
+  | .dist _ b ids => "=" ++ joinWith "," ((if ids.length = 1 then [b] else distBytes s.ps b ids.length).map toString)
+  | _ => "ok"
+
+def bdump (s : GState Buddy.State) : String :=
+  let es := s.pt.foldl (fun acc pg => insertSorted pg acc) []
+  "PT{" ++ joinWith "," (es.map fun e => s!"{toHex e.vaddr}>{toHex e.paddr}@{e.dev}") ++ "} BD{" ++
+    joinWith " | " (s.mem.map Buddy.dump) ++ "}"
+
+def runTrace (verbose : Bool) : GState Buddy.State → List (List String) → List String → List String
+  | _, [], acc => acc.reverse
+  | s, t :: ts, acc =>
+    match (parseOp t).bind toDOp with
+    | none => ("bad-op" :: acc).reverse
+    | some op =>
+      match step buddyIface s op with
+      | .error e => (e.str :: acc).reverse
+      | .ok s' =>
+        let d := bdump s'
+        let o := if verbose then resStr s op ++ " " ++ d else resStr s op ++ " #" ++ toHex (fnvStr d)
+        runTrace verbose s' ts (o :: acc)
+
+def handle (first : String) (rest : List String) : String :=
+  let t := words first
+  match (kv? t "fs").bind idList?, kvNat? t "v" with
+  | some fs, some v => joinWith " ; " (runTrace (v == 1) (binit fs) (rest.map words) [])
+  | _, _ => "bad"
+
+end Comp
 
 /-- run the ops, collecting the per-step outputs and the last dump; stops at the first fault -/
 def runTrace (verbose : Bool) : State → List (List String) → List String → String → List String × String
@@ -728,6 +988,7 @@ def handle (line : String) : String :=
     if t.getD 1 "" == "buddy" then (if kvNat? t "x" == some 1 then Buddy.handleX line else Buddy.handle line) else
     if t.getD 1 "" == "lost" then handleLost first rest else
     if t.getD 1 "" == "reg" then handleReg first else
+    if t.getD 1 "" == "comp" then Comp.handle first rest else
     match kvNat? t "l2", kvNat? t "cpu", (kv? t "gpus").bind idList?, kvNat? t "v" with
     | some l2, some cpu, some gpus, some v =>
       let ps := 2 ^ l2
